@@ -6,6 +6,10 @@ package main
 import (
 	"fmt"
 	"math/rand"
+	"time"
+
+	govv1beta1 "github.com/cosmos/cosmos-sdk/x/gov/types/v1beta1"
+	paramproposal "github.com/cosmos/cosmos-sdk/x/params/types/proposal"
 
 	didtypes "github.com/SaoNetwork/sao/x/did/types"
 	saotypes "github.com/SaoNetwork/sao/x/sao/types"
@@ -39,9 +43,17 @@ var scenarios = map[string]scenario{
 	// scripted life cycles that combine steps the random generators rarely line up (no finding attached)
 	"flow-debt-claim":     {run: flowDebtClaim, genesis: func(g *GenesisSpec) { g.NodeParams.Baseline = sdk.NewInt64Coin(Denom, 1); g.NodeParams.BlockReward = sdk.NewInt64Coin(Denom, 1000) }},
 	"flow-renew2-migrate": {run: flowRenew2Migrate},
+	"flow-debt-release":   {run: flowDebtRelease},
+	"flow-sponsor-rollback": {run: flowSponsorRollback},
+	"flow-rollover-coincide": {run: flowRolloverCoincide, genesis: func(g *GenesisSpec) { g.NodeParams.OfflineTriggerHeight = 100000 }},
 	"flow-fault-not-held": {run: flowFaultNotHeld, genesis: func(g *GenesisSpec) { g.NodeParams.FishmenInfo = g.Accounts[10].Bech() }},
 	"flow-forged-owner":   {run: flowForgedOwner},
 	"flow-timeout-giveup": {run: flowTimeoutGiveup},
+	// twin-only scripts (the recorded stream is replayed on a second replica that restarts at every block; the
+	// model is not involved): state that changes by a route the handlers do not see
+	"twin-gov-params":        {run: twinGovParams, genesis: func(g *GenesisSpec) { g.GovVoting = 20 * time.Second; g.NodeParams.VstorageThreshold = 5000000 }},
+	"twin-multimsg-rollback": {run: twinMultiMsgRollback},
+	"flow-offline-super":  {run: flowOfflineSuper, genesis: func(g *GenesisSpec) { g.NodeParams.VstorageThreshold = 5000000; g.NodeParams.OfflineTriggerHeight = 30 }},
 }
 
 // D17: a signature the victim once produced over an unrelated text is accepted as the
@@ -549,4 +561,273 @@ func flowTimeoutGiveup(r *Recorder, accts []*Account) {
 		r.ClaimReward(p)
 	}
 	r.EndBlock()
+}
+
+
+// A super node goes silent: the offline detection of the end blocker clears its status bits without touching its
+// role; the next staking hook on its validator (a third party's delegation) then finds a super node without the
+// required status and demotes it. A second node with only part of the status bits, enough capacity and enough
+// stake is never promoted by the hooks.
+func flowOfflineSuper(r *Recorder, accts []*Account) {
+	c := r.c
+	val := c.ValAddrs[0]
+	n, partial, third := accts[0], accts[1], accts[2]
+	r.BeginBlock()
+	r.NodeCreate(n)
+	r.AddVstorage(n, 6000000)
+	r.Delegate(n, val, 200000)
+	r.NodeReset(n, "", 15, val.String(), nil)
+	r.NodeCreate(partial)
+	r.AddVstorage(partial, 6000000)
+	r.Delegate(partial, val, 200000)
+	r.NodeReset(partial, "", 13, val.String(), nil)
+	r.EndBlockStaking()
+	r.BeginBlock()
+	r.Delegate(third, val, 1000) // a hook while both are as declared
+	r.EndBlockStaking()
+	r.Blocks(35) // n is silent for longer than the offline trigger
+	r.BeginBlock()
+	r.Delegate(third, val, 1000)
+	r.Undelegate(third, val, 500)
+	r.EndBlockStaking()
+	r.BeginBlock()
+	r.NodeReset(n, "", 15, "", nil) // it reports in again
+	r.Delegate(third, val, 1000)
+	r.EndBlockStaking()
+}
+
+// twin: every parameter of the node module is changed by a governance proposal (which writes the parameter store
+// directly, not through the module's setters) while nodes are online, silent, delegating and storing; a replica that
+// restarts afterwards must agree with one that does not.
+func twinGovParams(r *Recorder, accts []*Account) {
+	c := r.c
+	val := c.ValAddrs[0]
+	op := c.Accounts["val0"]
+	m := newMiniWorld(r, accts, 2)
+	n := accts[8]
+	r.BeginBlock()
+	r.NodeCreate(n)
+	r.AddVstorage(n, 6000000)
+	r.Delegate(n, val, 100000) // 100000 of 1100000 shares: 9.09 %
+	r.NodeReset(n, "", 15, val.String(), nil)
+	m.store(m.owners[0], dataA, dataA, 1, 1000000, 2, 3600, 100)
+	m.completeAll()
+	r.EndBlockStaking()
+	r.BeginBlock()
+	content := paramproposal.NewParameterChangeProposal("node parameters", "tune", []paramproposal.ParamChange{
+		paramproposal.NewParamChange("node", "OfflineTriggerHeight", `"12"`),
+		paramproposal.NewParamChange("node", "VstorageThreshold", `"4000000"`),
+		paramproposal.NewParamChange("node", "ShareThreshold", `"0.050000000000000000"`),
+		paramproposal.NewParamChange("node", "PenaltyBase", `"2"`),
+		paramproposal.NewParamChange("node", "MaxPenalty", `"20000"`),
+		paramproposal.NewParamChange("node", "FishmenInfo", `"` + accts[9].Bech() + `"`),
+		paramproposal.NewParamChange("node", "AnnualPercentageYield", `"0.5"`),
+		paramproposal.NewParamChange("node", "HalvingPeriod", `"40"`),
+		paramproposal.NewParamChange("node", "AdjustmentPeriod", `"11"`),
+		paramproposal.NewParamChange("node", "Baseline", `{"denom":"sao","amount":"1"}`),
+		paramproposal.NewParamChange("node", "BlockReward", `{"denom":"sao","amount":"1000"}`),
+	})
+	sub, err := govv1beta1.NewMsgSubmitProposal(content, sdk.NewCoins(sdk.NewInt64Coin(Denom, 1000)), op.Addr)
+	if err != nil {
+		panic(err)
+	}
+	res := c.Deliver(op, 20000000, sub)
+	r.Note(fmt.Sprintf("submit: %s %s", res.Class, res.Log))
+	res = c.Deliver(op, 20000000, govv1beta1.NewMsgVote(op.Addr, 1, govv1beta1.OptionYes))
+	r.Note(fmt.Sprintf("vote: %s %s", res.Class, res.Log))
+	r.EndBlockStaking()
+	r.Blocks(6) // the voting period ends; the gov end blocker writes the parameter store
+	np := c.App.NodeKeeper.GetParams(c.deliverCtx())
+	r.Note(fmt.Sprintf("after the proposal: OfflineTriggerHeight=%d VstorageThreshold=%d ShareThreshold=%s", np.OfflineTriggerHeight, np.VstorageThreshold, np.ShareThreshold))
+	// exercise the code that reads the parameters
+	r.BeginBlock()
+	third := accts[10]
+	r.NodeCreate(third)
+	r.AddVstorage(third, 4500000)
+	r.Delegate(third, val, 70000)
+	r.NodeReset(third, "", 15, val.String(), nil)
+	r.NodeReset(n, "", 15, val.String(), nil)
+	m.store(m.owners[1], "bbbbbbbb-data-4000-8000-00000000000b", "bbbbbbbb-data-4000-8000-00000000000b", 1, 2000000, 1, 3600, 100)
+	m.completeAll()
+	r.EndBlockStaking()
+	for i := 0; i < 50; i++ { // silent nodes fall offline 12 blocks after their last sign of life; rewards halve, the rate adjusts
+		r.BeginBlock()
+		if i%10 == 3 {
+			r.ClaimReward(m.providers[0])
+		}
+		if i == 30 {
+			r.NodeReset(third, "", 15, val.String(), nil)
+		}
+		r.EndBlockStaking()
+	}
+}
+
+// twin: a transaction of two messages -- the first registers a payment address for a key DID, the second (a store
+// paid by that address) fails, so both are rolled back -- followed by a different registration of the same DID and
+// orders paid through it. Anything either message left outside the store differs between a replica that ran the
+// failed transaction and one that restarted since.
+func twinMultiMsgRollback(r *Recorder, accts []*Account) {
+	c := r.c
+	m := newMiniWorld(r, accts, 2)
+	w1, w2 := accts[8], accts[9]
+	k := PoolKey("owner-late")
+	did := "did:key:" + k.MB
+	o := &owner{did: did, key: k, kid: did + "#" + k.MB, acct: w1}
+	r.BeginBlock()
+	r.NodeCreate(w1) // w1 is a gateway too, so it can sign both messages
+	bal := c.App.BankKeeper.GetBalance(c.deliverCtx(), w1.Addr, Denom).Amount.Int64()
+	r.Send(w1, accts[10], bal-1000)
+	r.EndBlock()
+	r.BeginBlock()
+	p := m.w.proposal(o, w1, dataA, dataA, 1, 1000000, 1, 3600, 100)
+	res := c.Deliver(w1, 40000000,
+		&didtypes.MsgUpdatePaymentAddress{Creator: w1.Bech(), AccountId: accountIdOf(w1), Did: did},
+		&saotypes.MsgStore{Creator: w1.Bech(), Proposal: p, JwsSignature: SignJWS(&p, o.key, o.kid), Provider: w1.Bech()})
+	r.Note(fmt.Sprintf("two-message transaction: %s %s", res.Class, res.Log))
+	r.EndBlock()
+	r.BeginBlock()
+	o.acct = w2
+	r.UpdatePaymentAddress(w2, &didtypes.MsgUpdatePaymentAddress{Creator: w2.Bech(), AccountId: accountIdOf(w2), Did: did})
+	r.EndBlock()
+	r.BeginBlock()
+	res = m.store(o, dataA, dataA, 1, 1000000, 1, 3600, 100)
+	r.Note(fmt.Sprintf("store paid through the second registration: %s %s", res.Class, res.Log))
+	m.completeAll()
+	r.EndBlock()
+	r.BeginBlock()
+	m.renew(o, dataA, 7200)
+	r.EndBlock()
+	r.Blocks(5)
+}
+
+// Shards released while their provider still owes collateral: two providers without funds are charged the top-up
+// of a longer renewal (the shortfall is recorded as debt); one shard is then handed over by migration, the other
+// ends with the owner's termination. Each release pays the collateral net of the debt and clears the record.
+func flowDebtRelease(r *Recorder, accts []*Account) {
+	m := newMiniWorld(r, accts, 3)
+	o := m.owners[0]
+	r.BeginBlock()
+	m.store(o, dataA, dataA, 1, 1000000, 2, 3600, 100)
+	m.completeAll()
+	for _, p := range m.providers {
+		bal := r.c.App.BankKeeper.GetBalance(r.c.deliverCtx(), p.Addr, Denom).Amount.Int64()
+		r.Send(p, accts[8], bal-100)
+	}
+	m.renew(o, dataA, 36000)
+	r.EndBlock()
+	r.Blocks(2)
+	r.BeginBlock()
+	for _, sh := range m.w.ctxShards() {
+		if sp := m.w.acctByAddr(sh.Sp); sp != nil && sh.Status == 2 {
+			r.Migrate(sp, sp.Bech(), []string{dataA})
+			break
+		}
+	}
+	r.EndBlock()
+	r.BeginBlock()
+	m.completeAll()
+	r.EndBlock()
+	r.Blocks(2)
+	r.BeginBlock()
+	tp := saotypes.TerminateProposal{Owner: o.did, DataId: dataA}
+	r.Terminate(m.gw, &saotypes.MsgTerminate{Creator: m.gw.Bech(), Proposal: tp, JwsSignature: SignJWS(&tp, o.key, o.kid), Provider: m.gw.Bech()})
+	r.EndBlock()
+	r.Blocks(2)
+}
+
+// A renewed model runs through the end of its first paid period (the shards roll over to the renewal order) and
+// through the end of the renewed period (shards, order and model go), with the providers claiming after each. At
+// both ends the height is shared with other scheduled work: the timeout check of an unrelated order falls on the
+// roll-over height, and on the final expiry height, so the three schedules (order timeouts, shard expiry, data
+// expiry) are all due in the same block.
+func flowRolloverCoincide(r *Recorder, accts []*Account) {
+	m := newMiniWorld(r, accts, 2)
+	o := m.owners[0]
+	r.BeginBlock()
+	m.store(o, dataA, dataA, 1, 1000000, 2, 3600, 100)
+	m.completeAll()
+	end1 := r.c.Height + 3600 // completed in this block: the first period ends here
+	r.EndBlock()
+	r.BeginBlock()
+	m.renew(o, dataA, 4000)
+	r.EndBlock()
+	other := func(k int, data string, at int64) {
+		// an unrelated order whose timeout check (creation + 100) falls on height at
+		r.Blocks(int(at - 100 - r.c.Height))
+		r.BeginBlock()
+		if res := m.store(m.owners[1], data, data, 1, 500000, 1, 7200, 100); res.Class != "ok" {
+			r.Note("unrelated store: " + res.Log)
+		}
+		r.EndBlock()
+		r.BeginBlock()
+		m.completeAll()
+		r.EndBlock()
+	}
+	other(0, "bbbbbbbb-data-4000-8000-00000000000b", end1)
+	r.Blocks(int(end1 - r.c.Height + 3))
+	r.BeginBlock()
+	for _, p := range m.providers {
+		r.ClaimReward(p)
+	}
+	r.EndBlock()
+	end2 := end1 + 4000
+	other(1, "cccccccc-data-4000-8000-00000000000c", end2)
+	r.Blocks(int(end2 - r.c.Height + 3))
+	r.BeginBlock()
+	for _, p := range m.providers {
+		r.ClaimReward(p)
+	}
+	r.EndBlock()
+	r.Blocks(3)
+}
+
+// Orders paid by a third party (PaymentDid) that end before anything is stored: one cancelled by the sponsor while
+// pending, one handed to a provider that stays silent until the chain gives up, and an update of a stored model
+// cancelled by the sponsor (the model returns to its committed version). Every refund goes to the sponsor.
+func flowSponsorRollback(r *Recorder, accts []*Account) {
+	m := newMiniWorld(r, accts, 1)
+	o := m.owners[0]
+	r.BeginBlock()
+	sp := m.w.mkKeyOwner(accts[9], "sponsor")
+	r.EndBlock()
+	sponsored := func(dataId, commitId string, op uint32, timeout int32) TxResult {
+		p := m.w.proposal(o, m.gw, dataId, commitId, op, 1000000, 1, 3600, timeout)
+		p.PaymentDid = sp.did
+		return r.Store(sp.acct, &saotypes.MsgStore{Creator: sp.acct.Bech(), Proposal: p, JwsSignature: SignJWS(&p, o.key, o.kid), Provider: m.gw.Bech()})
+	}
+	lastOrder := func() uint64 {
+		var id uint64
+		for _, x := range m.w.ctxOrders() {
+			if x.Id > id {
+				id = x.Id
+			}
+		}
+		return id
+	}
+	r.BeginBlock()
+	sponsored(dataA, dataA, 1, 100)
+	r.EndBlock()
+	r.BeginBlock()
+	r.Cancel(sp.acct, sp.acct.Bech(), lastOrder())
+	r.EndBlock()
+	// handed to the provider, which never completes: ten timeouts later the order is given up
+	dataB := "bbbbbbbb-data-4000-8000-00000000000b"
+	r.BeginBlock()
+	sponsored(dataB, dataB, 1, 10)
+	r.Ready(m.gw, m.gw.Bech(), lastOrder())
+	r.EndBlock()
+	r.Blocks(125)
+	// an update paid by the sponsor, cancelled: back to the committed version
+	dataC := "cccccccc-data-4000-8000-00000000000c"
+	r.BeginBlock()
+	m.store(o, dataC, dataC, 1, 1000000, 1, 3600, 100)
+	m.completeAll()
+	r.EndBlock()
+	r.BeginBlock()
+	sponsored(dataC, dataC+"|cccccccc-comm-4000-8000-00000000000d", 1, 100)
+	r.EndBlock()
+	r.BeginBlock()
+	r.Cancel(sp.acct, sp.acct.Bech(), lastOrder())
+	r.EndBlock()
+	r.Blocks(2)
 }
